@@ -26,7 +26,7 @@ type params struct {
 }
 
 func init() {
-	report.Register("C15", report.Check{Level: "model_checking", QuickBudget: 150 * time.Second, ThoroughBudget: 40 * time.Minute, Run: run})
+	report.Register("C15", report.Check{Level: "model_checking", QuickBudget: 240 * time.Second, ThoroughBudget: 25 * time.Minute, Run: run})
 	explore.Register("C15.order", func(p string) explore.Harness {
 		var pr params
 		json.Unmarshal([]byte(p), &pr)
